@@ -182,10 +182,13 @@ def prob_order2(mk, ikind, kind, dim, mkind, origin=False):
     """One step of size eps agrees with the exact flow of the system's own Hamiltonian through eps^2
     (local error O(eps^3)); the energy error has no eps^0..eps^2 term.
 
-    origin=True: the expansion point is q = 0.  The model functions are polynomials with free symbolic coefficients, and the
-    family is closed under translation (U(q0 + x) is again a polynomial of the same degree in x whose coefficients range over
-    all reals as those of U do), so the claim at q = 0 for all coefficients is the claim at every q0 - with far smaller terms."""
-    sysm, info = sl.make_system(S, M, mk, kind, dim, mkind=mkind)
+    origin=True: the expansion point is q = 0 and the model functions are the GENERAL polynomials of syslib (every monomial
+    coefficient a free symbol: potential and metric parameter of degree 3 here (degree 4 in the symplecticity problem) in dim 1,
+    degrees 3 / 2 in dim 2).  That
+    family is closed under translation (U(q0 + x) is again such a polynomial in x and its coefficients range over all reals as
+    those of U do), so the claim at q = 0 for all coefficients is the claim at every q0 - with far smaller terms."""
+    # (the eps^0..eps^2 coefficients of a step and of the energy involve derivatives of H up to order 3: degree-3 families)
+    sysm, info = sl.make_system(S, M, mk, kind, dim, mkind=mkind, general=3 if origin else False)
     tag = f"{ikind}/{kind}/{mkind}/dim{dim}" + ("/origin" if origin else "")
     if mk.symbolic:
         q, p = mk.arr("q", dim), mk.arr("p", dim)
@@ -304,7 +307,8 @@ def prob_series_reversible(mk, ikind, kind, dim, mkind, n=1, origin=False):
     back return to the start through eps^3 (reversible to O(eps^4) for every state and model coefficient).
     origin=True: start position q = 0 (without loss of generality for polynomial models with free coefficients, see
     prob_order2)."""
-    sysm, info = sl.make_system(S, M, mk, kind, dim, mkind=mkind)
+    # (the reversed map through eps^3 involves derivatives of H up to order 3)
+    sysm, info = sl.make_system(S, M, mk, kind, dim, mkind=mkind, general=3 if origin else False)
     tag = f"{ikind}/{kind}/{mkind}/dim{dim}/n{n}" + ("/origin" if origin else "")
     q, p = mk.arr("q", dim), mk.arr("p", dim)
     if origin:
@@ -400,6 +404,69 @@ def _jacobian_fd(fn, q, p, dim, h=1e-6):
         b = fn(_state((x0 - e)[:dim].copy(), (x0 - e)[dim:].copy()))
         Jm[:, j] = (np.concatenate([a.pos, a.mom]) - np.concatenate([b.pos, b.mom])) / (2 * h)
     return Jm
+
+
+def prob_symplectic_series(mk, ikind, kind, dim, mkind):
+    """Implicit (or any) integrator step with the real fixed-point solver in the series domain, series coefficients being dual
+    numbers: the Jacobian J(eps) = sum_k J_k eps^k of the step with respect to the start state satisfies J^T Omega J = Omega
+    order by order through eps^3, at the expansion point q = 0 (no loss of generality for polynomial models with free
+    coefficients, see prob_order2) and every momentum / model coefficient."""
+    sysm, info = sl.make_system(S, M, mk, kind, dim, mkind=mkind, general=True)
+    tag = f"{ikind}/{kind}/{mkind}/dim{dim}/origin"
+    p = mk.arr("p", dim)
+    n2 = 2 * dim
+    Om = np.zeros((n2, n2), dtype=object if mk.symbolic else float)
+    for i in range(dim):
+        Om[i, dim + i] = 1
+        Om[dim + i, i] = -1
+    if mk.symbolic:
+        q = np.array([SV(0)] * dim, dtype=object)
+        if "metric_model" in info:
+            info["metric_model"].require_valid(mk, list(q))
+        D.K = n2
+        qd, pd = dual_array(q, 0), dual_array(p, dim)
+        st = _state(np.array([Ser([x]) for x in qd], dtype=object), np.array([Ser([x]) for x in pd], dtype=object))
+        integ = make_integrator(mk, ikind, sysm, Ser([0, 1]), **_series_kwargs(ikind))
+        try:
+            out = integ.step(st)
+        except IntegratorError as e:
+            raise Skip(f"integrator raised {type(e).__name__} in the series domain") from e
+        rows = [Ser.lift(r) for r in list(out.pos) + list(out.mom)]
+        Js = []
+        for k in range(Ser.N + 1):
+            Jk = np.empty((n2, n2), dtype=object)
+            for i, r in enumerate(rows):
+                ck = D.lift(r.c[k])
+                for j in range(n2):
+                    Jk[i, j] = ck.t[j]
+            Js.append(Jk)
+        items = []
+        zero = np.array([[SV(0)] * n2 for _ in range(n2)], dtype=object)
+        for k in range(Ser.N + 1):
+            acc = zero
+            for a in range(k + 1):
+                acc = acc + Js[a].T @ Om @ Js[k - a]
+            items.append(Item(f"{tag}: eps^{k} coefficient of J^T Omega J" + (" == Omega" if k == 0 else " vanishes"), acc, Om if k == 0 else zero))
+        return items
+    # concrete replay: finite-difference Jacobian of the real step (tight solver tolerances) at two step sizes
+    q = np.zeros(dim)
+    worst, done, eps = 0.0, 0, 0.2
+    while done < 2 and eps > 1e-3:
+        try:
+            integ = make_integrator(mk, ikind, sysm, eps, **({"fixed_point_solver_kwargs": {"convergence_tol": 1e-13, "max_iters": 500}} if ikind.startswith("implicit") else {}))
+            Jm = _jacobian_fd(lambda s_: integ.step(s_), q, np.asarray(p, dtype=float), dim, h=1e-5)
+            worst = max(worst, float(np.max(np.abs(Jm.T @ Om @ Jm - Om))) / eps ** 2)
+            done += 1
+        except IntegratorError:
+            pass  # the fixed-point iteration needs a smaller step at this point
+        eps = eps / 2
+    if not done:
+        raise Skip("no step size down to 1e-3 for which the real solver converges at this point")
+    ok = worst < 1e-3  # a defect at order eps^2 / eps^3 gives O(1) / O(eps) here; finite differences give <= 1e-5
+    out_items = []
+    for k in range(Ser.N + 1):
+        out_items.append(Item(f"{tag}: eps^{k} coefficient of J^T Omega J" + (" == Omega" if k == 0 else " vanishes"), ok, None, kind="true"))
+    return out_items
 
 
 def prob_symplectic_flows(mk, kind, dim, mkind, uf=False, **syskw):
